@@ -35,6 +35,7 @@ type c02Aux struct {
 	issuerAlg string // "" = self-signed
 	keyFix    string // fixture for the entity's own key
 	rawKnown  bool   // some known-OID extension carries a raw body
+	foreign   string // issuer artifact made by another tool: DN origin (c01ForeignDN)
 }
 
 func c02AllKinds() []refcfg.Ext {
@@ -105,6 +106,20 @@ func c02Devs() []c02Dev {
 			c.Issuer = "ca"
 			if c.SigAlg == "" || refx509.SigFamily(refx509.SigAlgByName[c.SigAlg]) != c05Family(ia) {
 				c.SigAlg = refcfg.DefaultSigAlg(ia)
+			}
+		})
+	}
+	// subordinate under an imported issuer certificate whose name another tool encoded
+	for _, o := range c01Origins[1:] {
+		o := o
+		if strings.HasPrefix(o, "printable-with-") {
+			continue // the issuer field repeats the foreign bytes (C01); their repertoire slip is not gopki's encoding
+		}
+		add("issuer", "under-foreign-"+o, func(c *refcfg.CertCfg, aux *c02Aux) {
+			aux.issuerAlg, aux.foreign = "P-256", o
+			c.Issuer = "ca"
+			if c.SigAlg == "" || refx509.SigFamily(refx509.SigAlgByName[c.SigAlg]) != c05Family("P-256") {
+				c.SigAlg = refcfg.DefaultSigAlg("P-256")
 			}
 		})
 	}
@@ -209,12 +224,24 @@ func c02Once(x *engine.Ctx, c *c02Case) (violations int) {
 		cfg.SigAlg = refcfg.DefaultSigAlg(cfg.KeyAlg)
 	}
 	d := &Dir{Certs: []*refcfg.CertCfg{cfg}}
+	var foreignPem []byte
 	if aux.issuerAlg != "" {
-		d.Certs = append([]*refcfg.CertCfg{{Path: "ca.yaml", Subject: "CN=Issuer, O=Test", KeyAlg: aux.issuerAlg}}, d.Certs...)
+		ca := &refcfg.CertCfg{Path: "ca.yaml", Subject: "CN=Issuer, O=Test", KeyAlg: aux.issuerAlg}
+		if aux.foreign != "" {
+			p, subj, err := foreignIssuerPEM(aux.foreign, "P-256-1", false)
+			if err != nil {
+				x.Cap("cannot create foreign issuer: " + err.Error())
+				return
+			}
+			foreignPem, ca.Subject = p, subj
+		}
+		d.Certs = append([]*refcfg.CertCfg{ca}, d.Certs...)
 	}
 	g := Generate(d, func(w *simfs.World) {
 		w.Put("ent.pem", FixtureKeyPEM(aux.keyFix))
-		if aux.issuerAlg != "" {
+		if foreignPem != nil {
+			w.Put("ca.pem", foreignPem)
+		} else if aux.issuerAlg != "" {
 			w.Put("ca.pem", FixtureKeyPEM(FixtureForAlg(aux.issuerAlg, 1)))
 		}
 	}, drive.Default)
